@@ -69,6 +69,7 @@ pub fn enumerate(prop: &str, tier: &str, f: &mut dyn FnMut(Case)) {
         }
         "C03" => {
             crate::gen_scale::not(lv, f);
+            crate::gen_scale::not_cmp(lv, f);
             gen::not(lv, f);
         }
         "C04" => {
